@@ -30,6 +30,27 @@ func simpleNode(node Node) bool {
 	return false
 }
 
+// copyNode copies a simple node (see simpleNode), so that the rewritten tree stays a tree: a node object placed
+// in two child positions would be walked (and patched) twice.
+func copyNode(node Node) Node {
+	switch n := node.(type) {
+	case *IdentifierNode:
+		c := *n
+		return &c
+	case *PointerNode:
+		c := *n
+		return &c
+	case *IntegerNode:
+		c := *n
+		return &c
+	case *PropertyNode:
+		c := *n
+		c.Node = copyNode(n.Node)
+		return &c
+	}
+	return node
+}
+
 type inRange struct {
 	// typed is set when the tree has been type checked (a config was given):
 	// then the rewrite asks for an integer type on the left operand.
@@ -56,7 +77,7 @@ func (v *inRange) Exit(node *Node) {
 							},
 							Right: &BinaryNode{
 								Operator: "<=",
-								Left:     n.Left,
+								Left:     copyNode(n.Left),
 								Right:    to,
 							},
 						})
